@@ -1,7 +1,7 @@
 (* C08 — property theorems only (statements + [exact]); see Proofs.v for the proofs. *)
-From Coq Require Import List NArith.
+From Coq Require Import List NArith String.
 From V.Base Require Import Hex BigEndian.
-From V.C08 Require Import Model Proofs.
+From V.C08 Require Import Model Proofs Typed TypedProofs.
 Import ListNotations.
 Local Open Scope N_scope.
 
@@ -29,9 +29,31 @@ Print Assumptions C08_one_encoding.
 
 (* The decoder never consumes more than the input holds (declared sizes are covered by real bytes). *)
 Theorem C08_reads_within_input : forall b t rest, bytes_ok b -> decode_item b = Ok (t, rest) ->
-  (length (encode t) + length rest = length b)%nat /\ (length (encode t) <= length b)%nat.
+  (List.length (encode t) + List.length rest = List.length b)%nat /\ (List.length (encode t) <= List.length b)%nat.
 Proof. exact decode_consumes_within. Qed.
 Print Assumptions C08_reads_within_input.
+
+(* Typed layer (unsigned integers of all widths, big integers, booleans, byte strings/arrays, slices,
+   arrays, structs with nil-tagged and tail fields, interface values): encode-then-decode is the identity ... *)
+Theorem C08_typed_roundtrip : forall t v i, enc_ty t v = Some i -> item_ok i -> decode_typed t (encode i) = Some v.
+Proof. exact typed_decode_encode. Qed.
+Print Assumptions C08_typed_roundtrip.
+
+(* ... and every byte string a typed decoder accepts is exactly the typed encoder's output for the value
+   it returns (integers without leading zeros, exact array lengths, the one empty value for a nil pointer,
+   no surplus list elements). *)
+Theorem C08_typed_canonical : forall t b v, ty_ok t = true -> bytes_ok b ->
+  decode_typed t b = Some v -> encode_typed t v = Some b.
+Proof. exact typed_canonical. Qed.
+Print Assumptions C08_typed_canonical.
+
+Example C08_typed_example :
+  let t := TStruct [TUint 8; TBig; TUint 8; TPtrNil (TByteArr 20); TBig; TBytes] (Some (TUint 2)) in
+  ty_ok t = true /\
+  decode_typed t (unhex "cb0101825208808201028007"%string) =
+    Some (VList [VNum 1; VNum 1; VNum 21000; VNil; VNum 258; VBytes []; VList [VNum 7]]) /\
+  decode_typed t (unhex "cb0101825208c08201028007"%string) = None.
+Proof. vm_compute. repeat split; reflexivity. Qed.
 
 (* Non-vacuity: a concrete nested value with a long string satisfies the hypotheses and round-trips. *)
 Example C08_example :
